@@ -323,6 +323,28 @@ func runFresh(c *Ctx, r *Reporter) {
 			}
 			r.Check(okv, construct, p.Rel(instrPos(ret)), "array operator returns a fresh container", why)
 		}
+		// the repetition case never uses the shallow Copy: nested composites must be copied too
+		info := pkg.TypesInfo
+		for _, sw := range findSwitches(fd.Decl.Body, func(sw *ast.SwitchStmt) bool {
+			return sw.Tag != nil && isNamed(info.TypeOf(sw.Tag), ModulePath+"/pkg/parser", "Operator")
+		}) {
+			cases, _ := caseConsts(info, sw.Body)
+			for k, cc := range cases {
+				if k.Name() != "OP_ASTERISK" {
+					continue
+				}
+				shallow := false
+				ast.Inspect(cc, func(n ast.Node) bool {
+					if call, ok := n.(*ast.CallExpr); ok {
+						if fn := calleeFunc(info, call); fn != nil && fn == copyFn.Obj {
+							shallow = true
+						}
+					}
+					return true
+				})
+				r.Check(!shallow, fd.QName()+"#repeat-deep", p.Rel(cc.Pos()), "repetition copies through deepCopy only", "the repetition case uses the shallow (*arrayVal).Copy: nested arrays/maps of the operand are shared with the result (`snap := board * 1` aliases the rows)")
+			}
+		}
 		// appends in this function: every appended operand comes from Copy()/deepCopy
 		j := 0
 		for _, b := range sf.Blocks {
